@@ -1,8 +1,11 @@
 //! Byzantine prover, second move ("covering tracks"): after a fault has made
-//! some gate rows fail, try to re-satisfy each failing row by solving for one
-//! other advice cell queried in that row. The gate polynomial is evaluated by
+//! some gate rows fail, try to re-satisfy them by solving for other advice
+//! cells queried in the failing rows. The gate polynomials are evaluated by
 //! the harness (public `Expression::evaluate` over MockProver's public tables)
 //! at a few values of the candidate cell, interpolated, and a root is taken.
+//! A candidate that sits in a copy cycle is changed together with its whole
+//! cycle (cycles containing a constant are left alone). A step is kept when it
+//! strictly reduces the number of failing (polynomial, row) pairs.
 //! Whatever the repair does, the oracle is unchanged: an accepted table is a
 //! violation only if the bound public values contradict the reference.
 use ff::Field;
@@ -24,8 +27,8 @@ fn cell(v: &CellValue<Fq>) -> Fq {
 struct Tables<'a> {
     p: &'a MockProver<Fq>,
     n: i64,
-    /// override of one advice cell
-    ov: Option<((usize, usize), Fq)>,
+    /// overrides of advice cells
+    ov: Vec<((usize, usize), Fq)>,
 }
 
 impl Tables<'_> {
@@ -39,7 +42,7 @@ impl Tables<'_> {
             &|q| cell(&self.p.fixed()[q.column_index()][self.row(row, q.rotation().0)]),
             &|q| {
                 let r = self.row(row, q.rotation().0);
-                if let Some((c, v)) = &self.ov {
+                for (c, v) in &self.ov {
                     if *c == (q.column_index(), r) {
                         return *v;
                     }
@@ -56,6 +59,27 @@ impl Tables<'_> {
             &|a, b| a * b,
             &|a, f| a * f,
         )
+    }
+    /// number of failing (polynomial, row) pairs at `row`
+    fn failing_at(&self, row: usize) -> usize {
+        let mut n = 0;
+        for g in self.p.cs().gates() {
+            for poly in g.polynomials() {
+                if self.eval(poly, row) != Fq::ZERO {
+                    n += 1;
+                }
+            }
+        }
+        for tr in self.p.cs().trashcans() {
+            if self.eval(tr.selector(), row) == Fq::ONE {
+                for poly in tr.constraint_expressions() {
+                    if self.eval(poly, row) != Fq::ZERO {
+                        n += 1;
+                    }
+                }
+            }
+        }
+        n
     }
 }
 
@@ -81,13 +105,27 @@ fn advice_cells(e: &Expression<Fq>, row: usize, n: i64) -> Vec<(usize, usize)> {
     )
 }
 
-/// Is the advice cell in a non-trivial copy cycle?
-fn in_cycle(p: &MockProver<Fq>, mapping: &[Vec<(usize, usize)>], col: usize, row: usize) -> bool {
+/// The advice cells of the copy cycle of (col, row), the cell included; None
+/// when the cycle contains a fixed cell.
+fn cycle_of(p: &MockProver<Fq>, mapping: &[Vec<(usize, usize)>], col: usize, row: usize) -> Option<Vec<(usize, usize)>> {
     let cols = p.permutation().columns();
-    match cols.iter().position(|c| matches!(c.column_type(), Any::Advice(_)) && c.index() == col) {
-        None => false,
-        Some(ci) => mapping[ci][row] != (ci, row),
+    let mut out = vec![(col, row)];
+    let Some(ci) = cols.iter().position(|c| matches!(c.column_type(), Any::Advice(_)) && c.index() == col) else {
+        return Some(out);
+    };
+    let mut cur = mapping[ci][row];
+    let mut guard = 0;
+    while cur != (ci, row) && guard < 1 << 20 {
+        let c = cols[cur.0];
+        match c.column_type() {
+            Any::Advice(_) => out.push((c.index(), cur.1)),
+            Any::Fixed => return None,
+            Any::Instance => {}
+        }
+        cur = mapping[cur.0][cur.1];
+        guard += 1;
     }
+    Some(out)
 }
 
 fn last_used_row(p: &MockProver<Fq>) -> usize {
@@ -102,11 +140,11 @@ fn last_used_row(p: &MockProver<Fq>) -> usize {
     last
 }
 
-/// All failing (polynomial, row) pairs among the gate constraints and the
-/// additive-selector constraints.
-fn failing<'a>(p: &'a MockProver<Fq>, t: &Tables<'_>, upto: usize) -> Vec<(&'a Expression<Fq>, usize)> {
+/// The first failing (polynomial, row) pairs among the gate constraints and
+/// the additive-selector constraints.
+fn failing<'a>(p: &'a MockProver<Fq>, t: &Tables<'_>, rows: &[usize]) -> Vec<(&'a Expression<Fq>, usize)> {
     let mut out = vec![];
-    for row in 0..=upto.min(p.usable_rows().end.saturating_sub(1)) {
+    for &row in rows {
         for g in p.cs().gates() {
             for poly in g.polynomials() {
                 if t.eval(poly, row) != Fq::ZERO {
@@ -130,10 +168,10 @@ fn failing<'a>(p: &'a MockProver<Fq>, t: &Tables<'_>, upto: usize) -> Vec<(&'a E
     out
 }
 
-/// Roots of the univariate restriction of `poly` at `row` in the value of `c`
-/// (degree <= 2 handled; higher degrees skipped).
-fn solve(p: &MockProver<Fq>, n: i64, poly: &Expression<Fq>, row: usize, c: (usize, usize)) -> Vec<Fq> {
-    let at = |v: Fq| Tables { p, n, ov: Some((c, v)) }.eval(poly, row);
+/// Roots of the univariate restriction of `poly` at `row` in the common value
+/// of `cells` (degree <= 2 handled; higher degrees skipped).
+fn solve(p: &MockProver<Fq>, n: i64, poly: &Expression<Fq>, row: usize, cells: &[(usize, usize)]) -> Vec<Fq> {
+    let at = |v: Fq| Tables { p, n, ov: cells.iter().map(|c| (*c, v)).collect() }.eval(poly, row);
     let (y0, y1, y2, y3) = (at(Fq::ZERO), at(Fq::ONE), at(Fq::from(2)), at(Fq::from(3)));
     // finite differences: y = a t^2 + b t + c0 (check the cubic term is absent)
     let two_inv = Fq::from(2).invert().unwrap();
@@ -159,8 +197,37 @@ fn solve(p: &MockProver<Fq>, n: i64, poly: &Expression<Fq>, row: usize, c: (usiz
     }
 }
 
-/// Tries up to `depth` single-cell repairs. Returns the number of repairs made.
-pub fn attempt(p: &mut MockProver<Fq>, protected: &[(usize, usize)], rng: &mut Prng, depth: usize) -> usize {
+/// Rows whose constraints may query one of `cells` (rotations within +-3).
+fn rows_near(cells: &[(usize, usize)], last: usize) -> Vec<usize> {
+    let mut rows: Vec<usize> = vec![];
+    for (_, r) in cells {
+        for d in -3i64..=3 {
+            let rr = *r as i64 + d;
+            if rr >= 0 && rr as usize <= last {
+                rows.push(rr as usize);
+            }
+        }
+    }
+    rows.sort();
+    rows.dedup();
+    rows
+}
+
+/// Number of failing gate constraints in the rows around `cells` (the only
+/// rows an edit of these cells can have broken).
+pub fn local_failures(p: &MockProver<Fq>, cells: &[(usize, usize)]) -> usize {
+    let n = p.advice().first().map(|c| c.len()).unwrap_or(0) as i64;
+    if n == 0 {
+        return 0;
+    }
+    let last = p.usable_rows().end.saturating_sub(1);
+    let t = Tables { p, n, ov: vec![] };
+    rows_near(cells, last).iter().map(|r| t.failing_at(*r)).sum()
+}
+
+/// Tries up to `depth` repairs. Returns the number of repairs made. `protected`
+/// are the cells the fault changed: failures are looked for around them.
+pub fn attempt(p: &mut MockProver<Fq>, changed: &mut Vec<(usize, usize)>, rng: &mut Prng, depth: usize) -> usize {
     use rayon::iter::ParallelIterator;
     let n = p.advice().first().map(|c| c.len()).unwrap_or(0) as i64;
     if n == 0 {
@@ -168,50 +235,74 @@ pub fn attempt(p: &mut MockProver<Fq>, protected: &[(usize, usize)], rng: &mut P
     }
     let mapping: Vec<Vec<(usize, usize)>> = p.permutation().mapping().map(|c| c.collect::<Vec<_>>()).collect();
     let upto = last_used_row(p);
+    let last = upto.min(p.usable_rows().end.saturating_sub(1));
     let mut made = 0;
-    let mut touched: Vec<(usize, usize)> = protected.to_vec();
+    let mut touched: Vec<(usize, usize)> = changed.clone();
     for _ in 0..depth {
-        let fix: Option<((usize, usize), Fq)> = {
-            let t = Tables { p, n, ov: None };
-            let fails = failing(p, &t, upto);
+        let fix: Option<(Vec<(usize, usize)>, Fq)> = {
+            let t = Tables { p, n, ov: vec![] };
+            let fails = failing(p, &t, &rows_near(&touched, last));
             if fails.is_empty() {
+                *changed = touched;
                 return made;
             }
-            let (poly, row) = fails[0];
-            let mut cands = advice_cells(poly, row, n);
-            cands.sort();
-            cands.dedup();
-            cands.retain(|c| !touched.contains(c));
-            // pure hints first (cells in no copy cycle cannot have downstream users)
-            let (mut free, mut bound): (Vec<_>, Vec<_>) =
-                cands.into_iter().partition(|c| !in_cycle(p, &mapping, c.0, c.1));
-            rng.shuffle(&mut free);
-            rng.shuffle(&mut bound);
             let mut found = None;
-            for c in free.into_iter().chain(bound.into_iter().take(0)) {
-                // the new value must zero every failing polynomial of this row that mentions the cell
-                for root in solve(p, n, poly, row, c) {
-                    let tt = Tables { p, n, ov: Some((c, root)) };
-                    let ok = fails.iter().filter(|(_, r)| *r == row).all(|(pl, r)| tt.eval(pl, *r) == Fq::ZERO);
-                    if ok {
-                        found = Some((c, root));
-                        break;
+            // work on the first failing rows
+            'outer: for (poly, row) in fails.iter().take(4) {
+                let mut cands = advice_cells(poly, *row, n);
+                cands.sort();
+                cands.dedup();
+                cands.retain(|c| !touched.contains(c));
+                // pure hints first (cells in no copy cycle cannot have other users), then
+                // cells with their whole copy cycle
+                let mut groups: Vec<Vec<(usize, usize)>> = vec![];
+                for c in cands {
+                    if let Some(cy) = cycle_of(p, &mapping, c.0, c.1) {
+                        if cy.iter().all(|x| !touched.contains(x)) {
+                            groups.push(cy);
+                        }
                     }
                 }
-                if found.is_some() {
-                    break;
+                rng.shuffle(&mut groups);
+                groups.sort_by_key(|g| g.len());
+                for g in groups.into_iter().take(12) {
+                    // rows whose constraints may mention a changed cell
+                    let mut rows: Vec<usize> = vec![];
+                    for (_, r) in &g {
+                        for d in -3i64..=3 {
+                            let rr = *r as i64 + d;
+                            if rr >= 0 && rr as usize <= last && !rows.contains(&(rr as usize)) {
+                                rows.push(rr as usize);
+                            }
+                        }
+                    }
+                    let before: usize = rows.iter().map(|r| t.failing_at(*r)).sum();
+                    for root in solve(p, n, poly, *row, &g) {
+                        let tt = Tables { p, n, ov: g.iter().map(|c| (*c, root)).collect() };
+                        let after: usize = rows.iter().map(|r| tt.failing_at(*r)).sum();
+                        if after < before {
+                            found = Some((g.clone(), root));
+                            break 'outer;
+                        }
+                    }
                 }
             }
             found
         };
         match fix {
-            None => return made,
-            Some(((col, row), v)) => {
-                p.advice_mut()[col][row] = CellValue::Assigned(v);
-                touched.push((col, row));
+            None => {
+                *changed = touched;
+                return made;
+            }
+            Some((cells, v)) => {
+                for (col, row) in cells {
+                    p.advice_mut()[col][row] = CellValue::Assigned(v);
+                    touched.push((col, row));
+                }
                 made += 1;
             }
         }
     }
+    *changed = touched;
     made
 }
